@@ -82,7 +82,7 @@ def VMState.init {V G : Type} (g : G) : VMState V G := { proto := PState.init, g
 
 /-- Outcome of `Core.Run` for one host call on a fresh core: the signal, the finished core,
 the globals, the output and the interrupt's texts. -/
-structure RunOut (V G : Type) where
+structure CoreRunOut (V G : Type) where
   sig : Sig
   core : CoreObs V
   globals : G
@@ -91,7 +91,7 @@ structure RunOut (V G : Type) where
   msg : String
 
 def runCore {V G : Type} (prog : Prog V G) (cancelled : Bool) (fn : String) (np : Nat) (stack0 : List V)
-    (g : G) : RunOut V G :=
+    (g : G) : CoreRunOut V G :=
   if cancelled then
     { sig := some .terminate, core := { stack := stack0, frames := 1 }, globals := g, out := "",
       kind := "-", msg := "context canceled" }
